@@ -6,9 +6,10 @@ import BbRe.Spec.ByteLocks
 
 Lemmas about `Model/LockRange.lean` (`offsetLengthToStartEnd`, `toDenied`), the
 transcription of the conversions in
-`pkg/filesystem/virtual/nfsv4/opened_files_pool.go`, and the consequences of the
-single accepted request with an empty range — offset `2^64-1`, length all-ones —
-on the lock table model `Model/BRL.lean`.
+`pkg/filesystem/virtual/nfsv4/opened_files_pool.go`; and, for the conversion as it
+was before the fix 3d4b513 (`legacyOffsetLengthToStartEnd`), the consequences of
+its single accepted request with an empty range — offset `2^64-1`, length
+all-ones — on the lock table model `Model/BRL.lean`.
 
 `o l` are the `uint64` arguments of the Go function, hence the hypotheses
 `o ≤ maxU64`, `l ≤ maxU64`.  Core Lean only.
@@ -18,11 +19,114 @@ open BbRe.LockRange BbRe.BRL
 
 /-! ## `offsetLengthToStartEnd` -/
 
-/-- The conversion rejects exactly length 0 and (for a length that is not the
-all-ones "to end of file" marker) a range whose end overflows `uint64`. -/
-theorem conv_none_iff (o l : Nat) (ho : o ≤ maxU64) (hl : l ≤ maxU64) :
-    offsetLengthToStartEnd o l = none ↔ (l = 0 ∨ (l ≠ maxU64 ∧ o + l > maxU64)) := by
+/-- The conversion answers `NFS4ERR_INVAL` exactly for length 0 and (for a length that is not
+the all-ones "to end of file" marker) a range whose end overflows `uint64`. -/
+theorem conv_inval_iff (o l : Nat) (ho : o ≤ maxU64) (hl : l ≤ maxU64) :
+    offsetLengthToStartEnd o l = .error stInval ↔ (l = 0 ∨ (l ≠ maxU64 ∧ o + l > maxU64)) := by
   unfold offsetLengthToStartEnd
+  have hM : maxU64 = 18446744073709551615 := by decide
+  split
+  · simp_all
+  · split
+    · split
+      · simp_all [stInval, stBadRange]
+      · simp_all
+    · split
+      · simp only [true_iff]; omega
+      · simp only [reduceCtorEq, false_iff]; omega
+
+/-- … and `NFS4ERR_BAD_RANGE` exactly for offset `2^64-1` with the all-ones length. -/
+theorem conv_badRange_iff (o l : Nat) :
+    offsetLengthToStartEnd o l = .error stBadRange ↔ (o = maxU64 ∧ l = maxU64) := by
+  unfold offsetLengthToStartEnd
+  have hM : maxU64 = 18446744073709551615 := by decide
+  split
+  · simp_all [stInval, stBadRange]
+  · split
+    · split
+      · simp_all
+      · simp_all
+    · split
+      · simp_all [stInval, stBadRange]
+      · simp_all
+
+/-- No other status is ever returned. -/
+theorem conv_error (o l st : Nat) (h : offsetLengthToStartEnd o l = .error st) :
+    st = stInval ∨ st = stBadRange := by
+  unfold offsetLengthToStartEnd at h
+  split at h
+  · simp_all
+  · split at h
+    · split at h
+      · simp_all
+      · simp at h
+    · split at h
+      · simp_all
+      · simp at h
+
+example : offsetLengthToStartEnd 5 0 = .error stInval := by decide
+example : offsetLengthToStartEnd (maxU64 - 1) 2 = .error stInval := by decide
+example : offsetLengthToStartEnd maxU64 1 = .error stInval := by decide
+example : offsetLengthToStartEnd maxU64 maxU64 = .error stBadRange := by decide
+example : offsetLengthToStartEnd maxU64 0 = .error stInval := by decide
+
+/-- Shape of an accepted conversion; in particular the range is never empty. -/
+theorem conv_some (o l s e : Nat) (ho : o ≤ maxU64) (hl : l ≤ maxU64)
+    (h : offsetLengthToStartEnd o l = .ok (s, e)) :
+    s = o ∧ e ≤ maxU64 ∧ s < e ∧ (l = maxU64 → e = maxU64) ∧ (l ≠ maxU64 → e = o + l) := by
+  unfold offsetLengthToStartEnd at h
+  have hM : maxU64 = 18446744073709551615 := by decide
+  split at h
+  · simp at h
+  · split at h
+    · split at h
+      · simp at h
+      · simp only [Conv.ok.injEq, Prod.mk.injEq] at h
+        omega
+    · split at h
+      · simp at h
+      · simp only [Conv.ok.injEq, Prod.mk.injEq] at h
+        omega
+
+example : offsetLengthToStartEnd 5 10 = .ok (5, 15) := by decide
+example : offsetLengthToStartEnd 5 maxU64 = .ok (5, maxU64) := by decide
+example : offsetLengthToStartEnd (maxU64 - 1) 1 = .ok (maxU64 - 1, maxU64) := by decide
+example : offsetLengthToStartEnd (maxU64 - 1) maxU64 = .ok (maxU64 - 1, maxU64) := by decide
+example : offsetLengthToStartEnd 0 (maxU64 - 1) = .ok (0, maxU64 - 1) := by decide
+
+/-- RFC 7530 §16.10.4: an accepted request covers the bytes `offset …
+offset+length-1`, or — for the all-ones length — all bytes from `offset` to the
+end (the representable bytes are `0 … 2^64-2`). -/
+theorem conv_bytes (o l s e : Nat) (ho : o ≤ maxU64) (hl : l ≤ maxU64)
+    (h : offsetLengthToStartEnd o l = .ok (s, e)) (b : Nat) :
+    (s ≤ b ∧ b < e) ↔ (o ≤ b ∧ b < maxU64 ∧ (l = maxU64 ∨ b < o + l)) := by
+  have hc := conv_some o l s e ho hl h
+  have hM : maxU64 = 18446744073709551615 := by decide
+  omega
+
+/-- Every accepted request yields a non-empty range (no precondition any more). -/
+theorem conv_nonempty (o l s e : Nat) (ho : o ≤ maxU64) (hl : l ≤ maxU64)
+    (h : offsetLengthToStartEnd o l = .ok (s, e)) : s < e :=
+  (conv_some o l s e ho hl h).2.2.1
+
+/-- The fixed conversion agrees with the legacy one everywhere but in the corner. -/
+theorem conv_eq_legacy (o l : Nat) (hc : ¬ (o = maxU64 ∧ l = maxU64)) :
+    offsetLengthToStartEnd o l =
+      match legacyOffsetLengthToStartEnd o l with
+      | none => .error stInval
+      | some p => .ok p := by
+  unfold offsetLengthToStartEnd legacyOffsetLengthToStartEnd
+  split
+  · rfl
+  · split
+    · rw [if_neg (by intro h; exact hc ⟨h, by assumption⟩)]
+    · split <;> rfl
+
+/-! ## The conversion before 3d4b513 (`legacy…`) -/
+
+theorem legacy_conv_none_iff (o l : Nat) (ho : o ≤ maxU64) (hl : l ≤ maxU64) :
+    legacyOffsetLengthToStartEnd o l = none ↔ (l = 0 ∨ (l ≠ maxU64 ∧ o + l > maxU64)) := by
+  unfold legacyOffsetLengthToStartEnd
   have hM : maxU64 = 18446744073709551615 := by decide
   split
   · simp_all
@@ -32,15 +136,10 @@ theorem conv_none_iff (o l : Nat) (ho : o ≤ maxU64) (hl : l ≤ maxU64) :
       · simp only [true_iff]; omega
       · simp only [reduceCtorEq, false_iff]; omega
 
-example : offsetLengthToStartEnd 5 0 = none := by decide
-example : offsetLengthToStartEnd (maxU64 - 1) 2 = none := by decide
-example : offsetLengthToStartEnd maxU64 1 = none := by decide
-
-/-- Shape of an accepted conversion. -/
-theorem conv_some (o l s e : Nat) (ho : o ≤ maxU64) (hl : l ≤ maxU64)
-    (h : offsetLengthToStartEnd o l = some (s, e)) :
+theorem legacy_conv_some (o l s e : Nat) (ho : o ≤ maxU64) (hl : l ≤ maxU64)
+    (h : legacyOffsetLengthToStartEnd o l = some (s, e)) :
     s = o ∧ e ≤ maxU64 ∧ s ≤ e ∧ (l = maxU64 → e = maxU64) ∧ (l ≠ maxU64 → e = o + l) := by
-  unfold offsetLengthToStartEnd at h
+  unfold legacyOffsetLengthToStartEnd at h
   have hM : maxU64 = 18446744073709551615 := by decide
   split at h
   · simp at h
@@ -52,34 +151,20 @@ theorem conv_some (o l s e : Nat) (ho : o ≤ maxU64) (hl : l ≤ maxU64)
       · simp only [Option.some.injEq, Prod.mk.injEq] at h
         omega
 
-example : offsetLengthToStartEnd 5 10 = some (5, 15) := by decide
-example : offsetLengthToStartEnd 5 maxU64 = some (5, maxU64) := by decide
-example : offsetLengthToStartEnd (maxU64 - 1) 1 = some (maxU64 - 1, maxU64) := by decide
-example : offsetLengthToStartEnd 0 (maxU64 - 1) = some (0, maxU64 - 1) := by decide
-
-/-- RFC 7530 §16.10.4: an accepted request covers the bytes `offset …
-offset+length-1`, or — for the all-ones length — all bytes from `offset` to the
-end (the representable bytes are `0 … 2^64-2`). -/
-theorem conv_bytes (o l s e : Nat) (ho : o ≤ maxU64) (hl : l ≤ maxU64)
-    (h : offsetLengthToStartEnd o l = some (s, e)) (b : Nat) :
-    (s ≤ b ∧ b < e) ↔ (o ≤ b ∧ b < maxU64 ∧ (l = maxU64 ∨ b < o + l)) := by
-  have hc := conv_some o l s e ho hl h
-  have hM : maxU64 = 18446744073709551615 := by decide
-  omega
-
-/-- The exact precondition: the only accepted request that yields an empty range
-is offset `2^64-1` with the all-ones length. -/
-theorem conv_nonempty_iff (o l s e : Nat) (ho : o ≤ maxU64) (hl : l ≤ maxU64)
-    (h : offsetLengthToStartEnd o l = some (s, e)) :
+/-- The exact precondition of the legacy conversion: the only accepted request that yields an
+empty range is offset `2^64-1` with the all-ones length. -/
+theorem legacy_conv_nonempty_iff (o l s e : Nat) (ho : o ≤ maxU64) (hl : l ≤ maxU64)
+    (h : legacyOffsetLengthToStartEnd o l = some (s, e)) :
     s < e ↔ ¬ (o = maxU64 ∧ l = maxU64) := by
-  have hc := conv_some o l s e ho hl h
-  have hn : offsetLengthToStartEnd o l ≠ none := by rw [h]; simp
-  rw [Ne, conv_none_iff o l ho hl] at hn
+  have hc := legacy_conv_some o l s e ho hl h
+  have hn : legacyOffsetLengthToStartEnd o l ≠ none := by rw [h]; simp
+  rw [Ne, legacy_conv_none_iff o l ho hl] at hn
   have hM : maxU64 = 18446744073709551615 := by decide
   omega
 
-/-- … and that request is accepted. -/
-theorem conv_empty_corner : offsetLengthToStartEnd maxU64 maxU64 = some (maxU64, maxU64) := by
+/-- … and that request was accepted. -/
+theorem legacy_conv_empty_corner :
+    legacyOffsetLengthToStartEnd maxU64 maxU64 = some (maxU64, maxU64) := by
   decide
 
 /-! ## `toDenied` -/
@@ -87,19 +172,18 @@ theorem conv_empty_corner : offsetLengthToStartEnd maxU64 maxU64 = some (maxU64,
 /-- `byteRangeLockToLock4Denied` inverts the conversion on every non-empty table
 range that ends at or before `2^64-1`. -/
 theorem denied_inverts (s e : Nat) (hse : s < e) (he : e ≤ maxU64) :
-    offsetLengthToStartEnd (toDenied s e).1 (toDenied s e).2 = some (s, e) := by
+    offsetLengthToStartEnd (toDenied s e).1 (toDenied s e).2 = .ok (s, e) := by
   unfold toDenied
+  have hM : maxU64 = 18446744073709551615 := by decide
   by_cases h : e = maxU64
   · subst h
-    simp [offsetLengthToStartEnd]
-    intro h0
-    have hM : maxU64 = 18446744073709551615 := by decide
-    omega
+    simp only [ne_eq, not_true_eq_false, ↓reduceIte]
+    unfold offsetLengthToStartEnd
+    rw [if_neg (by omega), if_pos rfl, if_neg (by omega)]
   · simp only [ne_eq, h, not_false_eq_true, ↓reduceIte]
     unfold offsetLengthToStartEnd
-    have hM : maxU64 = 18446744073709551615 := by decide
     rw [if_neg (by omega), if_neg (by omega), if_neg (by omega)]
-    simp only [Option.some.injEq, Prod.mk.injEq, true_and]
+    simp only [Conv.ok.injEq, Prod.mk.injEq, true_and]
     omega
 
 example : toDenied 5 15 = (5, 10) := by decide
@@ -110,7 +194,7 @@ example : toDenied (maxU64 - 1) maxU64 = (maxU64 - 1, maxU64) := by decide
 reported length is the requested one, except that a range ending exactly at
 `2^64-1` is reported with the all-ones length (which denotes the same bytes). -/
 theorem denied_of_conv (o l s e : Nat) (ho : o ≤ maxU64) (hl : l ≤ maxU64)
-    (h : offsetLengthToStartEnd o l = some (s, e)) (hne : s < e) :
+    (h : offsetLengthToStartEnd o l = .ok (s, e)) :
     (toDenied s e).1 = o ∧
       ((toDenied s e).2 = l ∨ ((toDenied s e).2 = maxU64 ∧ o + l = maxU64)) := by
   have hc := conv_some o l s e ho hl h
@@ -131,10 +215,10 @@ theorem denied_of_conv (o l s e : Nat) (ho : o ≤ maxU64) (hl : l ≤ maxU64)
 
 /-- The exception of `denied_of_conv` really occurs: length 1 at offset `2^64-2`
 is reported back with the all-ones length. -/
-example : offsetLengthToStartEnd (maxU64 - 1) 1 = some (maxU64 - 1, maxU64) ∧
+example : offsetLengthToStartEnd (maxU64 - 1) 1 = .ok (maxU64 - 1, maxU64) ∧
     toDenied (maxU64 - 1) maxU64 = (maxU64 - 1, maxU64) := by decide
 
-/-! ## Consequences of the empty corner range on the lock table -/
+/-! ## Consequences of the legacy conversion's empty corner range on the lock table -/
 
 /-- `Test` for an empty range `[M, M)` never reports a conflict when all entries
 end at or before `M`. -/
@@ -201,15 +285,15 @@ theorem corner_two_exclusive_owners :
   · intro h
     exact Nat.lt_irrefl _ (h.nonempty _ (List.mem_cons_self ..))
 
-/-- The same, phrased with the caller model `Spec.ByteLocks.run` and the NFS
+/-- The same, phrased with the caller model `Spec.ByteLocks.run` and the legacy NFS
 conversion: both owners' `LOCK(offset = 2^64-1, length = all-ones, WRITE)`
 requests pass the conversion, are applied, and the table ends up with two
 exclusive entries of different owners. -/
 theorem corner_two_exclusive_owners_run :
-    offsetLengthToStartEnd maxU64 maxU64 = some (maxU64, maxU64) ∧
+    legacyOffsetLengthToStartEnd maxU64 maxU64 = some (maxU64, maxU64) ∧
     Spec.ByteLocks.run [] [⟨maxU64, maxU64, 1, .excl⟩, ⟨maxU64, maxU64, 2, .excl⟩] =
       [⟨maxU64, maxU64, 2, .excl⟩, ⟨maxU64, maxU64, 1, .excl⟩] := by
-  refine ⟨conv_empty_corner, ?_⟩
+  refine ⟨legacy_conv_empty_corner, ?_⟩
   have h1 : test [] ⟨maxU64, maxU64, 1, .excl⟩ = none := rfl
   have h2 : test [⟨maxU64, maxU64, 1, .excl⟩] ⟨maxU64, maxU64, 2, .excl⟩ = none :=
     test_empty_corner _ (by simp) _ _
